@@ -9,7 +9,7 @@ From Coq Require Import ZArith List Bool QArith Lia.
 Import ListNotations.
 Require Import PV.Base.Ops PV.Model.Relax PV.Model.RelaxChk PV.Proofs.RelaxChkProofs.
 Require Import PV.Model.GraphAlg PV.Model.Split PV.Model.SplitChk PV.Proofs.GraphSpec PV.Proofs.GraphBounded PV.Proofs.SplitBounded PV.Proofs.SplitChkBounded.
-Require Import PV.Model.Aggregate PV.Model.AggChk PV.Proofs.AggChkBounded PV.Proofs.NaiveAggSafe.
+Require Import PV.Model.Aggregate PV.Model.AggChk PV.Proofs.AggChkBounded PV.Proofs.NaiveAggSafe PV.Proofs.StdAggSafe.
 Open Scope Z_scope.
 
 Theorem C17_gauss_seidel_stays_in_bounds :
@@ -49,11 +49,18 @@ Theorem C17_bounded_rs_splitting_stays_in_bounds : forall p, In p all_patterns -
 Proof. exact bounded_rs_chk. Qed.
 Print Assumptions C17_bounded_rs_splitting_stays_in_bounds.
 
-(* sentinel arithmetic of the aggregation kernels (-n marks isolated nodes, negative ids mark
-   pass-2 attachments; x and y have n entries): bounded to all symmetric graphs on <= 4 vertices *)
-Theorem C17_bounded_standard_aggregation_stays_in_bounds : forall g, In g graphs_le4 -> ok_std_chk g = true.
-Proof. exact bounded_std_chk. Qed.
-Print Assumptions C17_bounded_standard_aggregation_stays_in_bounds.
+(* sentinel arithmetic of standard aggregation (-n marks isolated nodes, negative ids mark pass-2
+   attachments, ids shifted in place, y written at next-1 in pass 1 and at next in pass 3; x and y have n
+   entries): UNBOUNDED -- any number of vertices, any structurally valid CSR graph, symmetric or not *)
+Theorem C17_standard_aggregation_stays_in_bounds : forall (N : nat) (Ap Aj y0 : list Z),
+  length Ap = S N ->
+  (forall i, 0 <= i < Z.of_nat N -> 0 <= get Ap i <= get Ap (i + 1) /\ get Ap (i + 1) <= Z.of_nat (length Aj)) ->
+  (forall i, 0 <= i < Z.of_nat N -> forall j, In j (nbrs Ap Aj i) -> 0 <= j < Z.of_nat N) ->
+  length y0 = N ->
+  standard_aggregation_chk (Z.of_nat N) Ap Aj y0 = Some (standard_aggregation (Z.of_nat N) Ap Aj y0).
+Proof. exact (fun N Ap Aj y0 H1 H2 H3 Hy => standard_aggregation_safe N Ap Aj H1 H2 H3 y0 Hy). Qed.
+Print Assumptions C17_standard_aggregation_stays_in_bounds.
+
 (* naive aggregation, UNBOUNDED: any number of vertices, any structurally valid CSR graph (row pointer
    of n+1 non-decreasing entries within Aj, column indices in [0,n)), x and y of n entries *)
 Theorem C17_naive_aggregation_stays_in_bounds : forall (N : nat) (Ap Aj y0 : list Z),
